@@ -31,6 +31,9 @@ func main() {
 		fmt.Print(p.Source())
 		return
 	}
+	if id == "C03" && mode == "worker" {
+		os.Exit(checks.C03Worker(os.Args[3:]))
+	}
 	c, ok := checks.Registry[id]
 	if !ok {
 		fmt.Fprintln(os.Stderr, "unknown check", id)
